@@ -226,7 +226,7 @@ pub fn gen(rng: &mut Prng, plan: &mut Plan) {
                     s = s.i("incl", incl as i128);
                 }
                 if op == "uniform_u" {
-                    s = s.i("count", rng.range(1, 3) as i128);
+                    s = s.i("count", rng.range(1, 4) as i128);
                 }
                 steps.push(s);
             }
@@ -582,7 +582,9 @@ pub fn exec(plan: &Plan) -> RunResult {
                             } else {
                                 Uniform::new(&l, &u)
                             };
-                            Got::U((0..count).map(|_| d.sample(r)).collect())
+                            // samplers are values: a clone must behave like the original, and sampling must not wear them out
+                            let d2 = d.clone();
+                            Got::U((0..count).map(|i| if i % 2 == 1 { d2.sample(r) } else { d.sample(r) }).collect())
                         }
                     })
                 }
@@ -605,7 +607,8 @@ pub fn exec(plan: &Plan) -> RunResult {
                             } else {
                                 Uniform::new(&l, &u)
                             };
-                            Got::I((0..count).map(|_| d.sample(r)).collect())
+                            let d2 = d.clone();
+                            Got::I((0..count).map(|i| if i % 2 == 1 { d2.sample(r) } else { d.sample(r) }).collect())
                         }
                     })
                 }
